@@ -13,7 +13,7 @@ from . import binding as B
 from . import env, est as E
 from .oracles import EPS, REL, is_refusal
 from .runner import reference_witness, _cert_ratio, objective_margin
-from .seams import Seams
+from .seams import Seams, SimInterrupt
 from .session import classify_exception
 
 
@@ -200,6 +200,8 @@ def do_fit(S, op, i, base_seed, check):
             with seams.active():
                 model.fit(Xc, yc)
         warned_nonconv = any("converg" in str(w.message).lower() for w in wlist)
+    except SimInterrupt:
+        exc = dict(type="SimInterrupt", interrupted=True)
     except Exception as e:
         exc = classify_exception(e)
         if exc.get("harness"):
@@ -225,6 +227,14 @@ def do_fit(S, op, i, base_seed, check):
         if before[k] != after[k]:
             S.add(["C18"], "input_modified", (cls, "input_modified", k), dict(which=k), dict(feat0, which=k), i)
     _judge_solver_params(S, model, solver_before, cls, feat0, i)
+    if exc is not None and exc.get("interrupted"):
+        # the fit was killed part-way (F-INTERRUPT): nothing was returned, only the estimator
+        # object, the user's arrays and process-global state survive.  Inputs were checked
+        # above; what the interruption left behind is judged by the fits that follow.
+        S.probe("fit_interrupted")
+        S.log.update(repr(("interrupted", seams.n_events)).encode())
+        S.last_fit[mid] = dict(interrupted=True, container=container, op=i)
+        return
     if exc is not None:
         if is_refusal(exc) or exc["type"] in ("ValueError", "TypeError", "AttributeError") and \
                 "/sklearn/" in (exc.get("last") or ""):
@@ -250,7 +260,8 @@ def do_fit(S, op, i, base_seed, check):
     S.log.update(coef.tobytes() + intercept.tobytes())
     rec = dict(coef=coef, intercept=intercept, container=container, op=i, rng=rng, data=op["data"],
                labels=labels, n_iter=getattr(model, "n_iter_", None), seam_outer=seams.n_argpartition,
-               no_work=bool(op.get("tightened")) and not seams.n_argpartition and not seams.n_epochs)
+               no_work=bool(op.get("tightened")) and not seams.n_argpartition and not seams.n_epochs
+               and S.args[mid].get("ws_strategy", "subdiff") == "fixpoint" and cls != "GroupLasso")
     S.last_fit[mid] = rec
     if op.get("judge", True):
         judge_fit(S, model, mid, cls, ds, Xd, yc, rec, seams, warned_nonconv, feat0, i, check, container)
@@ -307,7 +318,10 @@ def judge_fit(S, model, mid, cls, ds, Xd, yc, rec, seams, warned_nonconv, feat0,
     if cls in ("GeneralizedLinearEstimator", "IterativeReweightedL1"):
         fam = dict(fam, knobs=params.get("knobs") or {})
         if fam["datafit"] == "QuadraticSVC":
-            return   # LinearSVC covers the dual convention
+            # the SVC dual through the generic estimator, with any solver it accepts (AndersonCD
+            # updates the caller's buffers in place, FISTA works on copies): the dual solution is
+            # feasible and coef_ is its stated primal image
+            return judge_gle_svc(S, model, cls, fam, Xd, y, rec, feat0, i)
     try:
         pr, info = E.reference_problem(cls, params, Xd, y, family=fam)
     except KeyError:
@@ -336,6 +350,10 @@ def judge_fit(S, model, mid, cls, ds, Xd, yc, rec, seams, warned_nonconv, feat0,
     # ---- C04-like feasibility for estimators with constraints
     # (a warm-started fit that stops at its first optimality test returns the coefficients it
     # was started from: see the solver-level oracle)
+    if rec.get("no_work"):
+        wv_ = np.asarray(w, dtype=float)
+        hi = float(pr.pen.alpha) if pr.pen.name == "IndicatorBox" else np.inf
+        rec["no_work"] = float(np.max(np.maximum(np.maximum(-wv_, wv_ - hi), 0.0), initial=0.0)) <= tol * (1 + REL)
     if pr.pen.has_constraint and not pr.pen.feasible(w) and not rec.get("no_work"):
         S.add(["C04", "C11"], "feasible", sig0 + ("infeasible",), dict(min=float(np.min(w))), dict(feat0), i)
     # ---- C11 (a): stationarity for the documented objective
@@ -405,6 +423,31 @@ def judge_fit(S, model, mid, cls, ds, Xd, yc, rec, seams, warned_nonconv, feat0,
     rec["tol"] = tol
     rec["problem"] = pr
     rec["wb"] = (w, b)
+
+
+def judge_gle_svc(S, model, cls, fam, Xd, y, rec, feat0, i):
+    C = float(fam["pargs"]["alpha"])
+    sig0 = (cls, "QuadraticSVC", fam["solver"])
+    dual = getattr(model, "dual_coef_", None)
+    coef = rec["coef"]
+    if dual is None:
+        S.add(["C11"], "svc_primal_image", sig0 + ("no_dual_coef",), {}, dict(feat0, solver=fam["solver"]), i)
+        return
+    dual = np.array(dual, dtype=float)[0]
+    if not (np.all(np.isfinite(dual)) and np.all(np.isfinite(coef))):
+        S.add(["C11", "C13"], "finite", sig0 + ("nonfinite",), {}, dict(feat0, solver=fam["solver"]), i)
+        return
+    if np.any(dual < 0) or np.any(dual > C):
+        S.add(["C04", "C11"], "feasible", sig0 + ("infeasible",),
+              dict(min=float(dual.min()), max=float(dual.max()), C=C), dict(feat0, solver=fam["solver"]), i)
+    ypm = np.where(np.asarray(y, dtype=float) > 0, 1.0, -1.0)
+    primal = (Xd * ypm[:, None]).T @ dual
+    got = np.ravel(coef)
+    err = float(np.max(np.abs(primal - got))) if got.size == primal.size else float("inf")
+    S.probe("gle_svc_primal_image_checked")
+    if err > 1e-9 * (1 + float(np.max(np.abs(primal), initial=0.0))):
+        S.add(["C11"], "svc_primal_image", sig0 + ("primal_image_mismatch",), dict(err=err),
+              dict(feat0, solver=fam["solver"]), i)
 
 
 def op_wants_optimum(S, i):
